@@ -172,6 +172,10 @@ class HDFOutput(Output):
             for ptype, pdata in self.particle_data.items():
                 ptype_grp = particles_grp.create_group(ptype)
                 arrays_grp = ptype_grp.create_group('arrays')
+                ptype_grp.attrs['output_property_arrays'] = numpy.array(
+                    [x.encode('utf-8')
+                     for x in pdata['output_property_arrays']], dtype='S'
+                )
                 data = self.all_array_data[ptype]
                 self._set_constants(pdata, ptype_grp)
                 self._set_properties(pdata, arrays_grp, data)
@@ -217,6 +221,11 @@ class HDFOutput(Output):
                 else:
                     array.add_property(prop_name, type=type_, default=default,
                                        stride=stride)
+            if 'output_property_arrays' in prop_array.attrs:
+                output_array = [
+                    _to_str(x)
+                    for x in prop_array.attrs['output_property_arrays']
+                ]
             array.set_output_arrays(output_array)
             # add_property does not look at the tags: without this all the
             # particles (ghost and remote ones too) count as real.
